@@ -468,6 +468,8 @@ inductive LogFile
   | auto
   | syslog
   | path (p : String)
+  | resolved             -- an AUTO log file after create_autochildlogs() gave it its (unique, generated) name;
+                         -- never produced by parsing, only by activating a group (Model/Reread.lean)
 deriving DecidableEq, Repr
 
 /-- datatypes.logfile_name on a string or on the Automatic default -/
